@@ -99,23 +99,28 @@ def rule_subset(chk, progs, tier):
     r.exhaustive = True
 
 
-def rule_initadd(chk, prog, tier):
-    r = chk.rule('C02.i', 'initadd(): for every history of nested/disjoint initializers the list stays sorted by offset, later initializers override earlier ones and fully covered initializers are dropped (cproc\'s own tables use out-of-order designators)',
+def rule_initadd(chk, prog, tier, rid='C02.i', bits=False):
+    r = chk.rule(rid, 'initadd(): for every history of nested/disjoint initializers the list stays sorted by offset, later initializers override earlier ones and fully covered initializers are dropped (cproc\'s own tables use out-of-order designators)',
                  floor=390)
     fn = prog.require_func('initadd', 'init.c')
     mk = prog.require_func('mkinit')
     IV = [(0, 4), (4, 8), (8, 12), (12, 16), (0, 8), (8, 16), (0, 16)]
+    if bits:
+        # bit-granular: four bit-fields sharing the storage unit [0,4), the next unit, the plain member after it and enclosing aggregates
+        IV = [(0, 4, 0, 29), (0, 4, 3, 24), (0, 4, 8, 15), (0, 4, 17, 0), (4, 8, 0, 20), (4, 8, 12, 0), (8, 12), (0, 4), (0, 8), (0, 12)]
+    IV = [iv if len(iv) == 4 else iv + (0, 0) for iv in IV]
     M = {'xmalloc': lambda it, a, e: Ptr(Obj('init', 'heap'), ())}
     def ref(seq):
         lst = []
-        for i, (s, e) in enumerate(seq):
-            lst = [o for o in lst if not (s <= o[0] and o[1] <= e)]
+        for i, (s, e, bb, ba) in enumerate(seq):
+            lo, hi = s * 8 + bb, e * 8 - ba
+            lst = [o for o in lst if not (lo <= o[4] and o[5] <= hi)]
             pos = len(lst)
             for j, o in enumerate(lst):
-                if o[0] >= e: pos = j; break
+                if o[4] >= hi: pos = j; break
             # an initializer nested inside an earlier, larger one goes after it
-            lst.insert(pos, (s, e, i))
-        return lst
+            lst.insert(pos, (s, e, bb, ba, lo, hi, i))
+        return [(o[0], o[1], o[2], o[3], o[6]) for o in lst]
     maxn = 3
     seqs = []
     for n in range(1, maxn + 1):
@@ -126,15 +131,15 @@ def rule_initadd(chk, prog, tier):
             p = Obj('parser', 'local')
             p.f[('init',)] = None
             out = []
-            for i, (s, e) in enumerate(seq):
+            for i, (s, e, bb, ba) in enumerate(seq):
                 p.f[('last',)] = Ptr(p, ('init',))      # a designator restarts the search at the head
-                ini = it.call(mk, [s, e, StructVal({('before',): 0, ('after',): 0}), cmodel.val('e%d' % i)])
+                ini = it.call(mk, [s, e, StructVal({('before',): bb, ('after',): ba}), cmodel.val('e%d' % i)])
                 ini.obj.tag = i
                 it.call(fn, [Ptr(p, ()), ini])
             cur = p.f[('init',)]
             n = 0
             while cur is not None:
-                out.append((cur.obj.f[('start',)], cur.obj.f[('end',)], cur.obj.tag))
+                out.append((cur.obj.f[('start',)], cur.obj.f[('end',)], cur.obj.f[('bits', 'before')], cur.obj.f[('bits', 'after')], cur.obj.tag))
                 cur = cur.obj.f.get(('next',))
                 n += 1
                 if n > 20: raise Unsupported('init list is cyclic')
@@ -149,7 +154,7 @@ def rule_initadd(chk, prog, tier):
             nbad += 1
             if first is None: first = (seq, want, run.value if run.outcome == 'return' else run.outcome + ' ' + str(run.detail))
     if nbad:
-        r.violation('initadd-histories', 'init.c:%s' % fn.get('line'), '%d of %d histories fail, e.g. initializers %s: expected list %s, got %s' % (nbad, len(seqs), first[0], first[1], first[2]))
+        r.violation('initadd-histories' + ('-bits' if bits else ''), 'init.c:%s' % fn.get('line'), '%d of %d histories fail, e.g. initializers %s: expected list %s, got %s' % (nbad, len(seqs), first[0], first[1], first[2]))
     r.samples.append('%d histories of up to %d initializers over %s' % (len(seqs), maxn, IV))
     r.exhaustive = True
 
